@@ -53,10 +53,11 @@ theorem gone_after_remove {d : Db} (hI : PlInv d) {c : Int} (hc : plExists d c =
     Gone (step d (.removeCrate c)).1 c := by
   have hI' := plInv_step hI (.removeCrate c)
   have hmem : c ∈ ids d.pl := (plExists_iff d c).mp hc
-  have hstep : (step d (.removeCrate c)).1 = plRemove d c := by
-    simp only [step, hc, Bool.not_true, Bool.false_eq_true, if_false]
+  obtain ⟨ds, hds, _⟩ := descendantIds_ok hI.wf c
+  have hstep : (step d (.removeCrate c)).1 = plRemove d (c :: ds) := by
+    simp only [step, hc, Bool.not_true, Bool.false_eq_true, if_false, hds]
   refine ⟨hI', ?_, ?_⟩
-  · rw [hstep]; exact removed_gone d c
+  · rw [hstep]; exact removed_gone d c ds
   · rw [hstep]; exact hI.seq c hmem
 
 theorem not_valid_of_gone {d : Db} {c : Int} (h : Gone d c) : qValid d c = false := by
@@ -71,14 +72,14 @@ theorem runG_eq {d : Db} (hI : PlInv d) (ops : List Op) : runG d ops = run d ops
   induction ops generalizing d with
   | nil => rfl
   | cons op ops ih =>
-    simp only [runG, run, stepG_eq d (forestOk_of_plInv hI) op]
+    simp only [runG, run, stepG_eq d op]
     exact ih (plInv_step hI op)
 
 theorem outcomesG_eq {d : Db} (hI : PlInv d) (ops : List Op) : outcomesG d ops = outcomes d ops := by
   induction ops generalizing d with
   | nil => rfl
   | cons op ops ih =>
-    simp only [outcomesG, outcomes, stepG_eq d (forestOk_of_plInv hI) op]
+    simp only [outcomesG, outcomes, stepG_eq d op]
     rw [ih (plInv_step hI op)]
 
 /-! ### every public call (mutations and queries interleaved) along API histories -/
@@ -96,7 +97,7 @@ theorem callOutcomes_defined (cs : List Call) : ∀ {S : Ord} {d : Db}, Inv S d 
   | cons c t ih =>
     intro S d hI hapi r hr
     simp only [List.all_cons, Bool.and_eq_true] at hapi
-    have hf := forestOk_of_plInv hI.pl
+    have hf := hI.pl.wf
     simp only [callOutcomes, List.mem_cons] at hr
     cases c with
     | mutate op =>
@@ -104,7 +105,7 @@ theorem callOutcomes_defined (cs : List Call) : ∀ {S : Ord} {d : Db}, Inv S d 
       · rw [e]
         simp only [callG]
         exact bind_unit_defined _ (stepG_defined d hf op)
-      · have hst : (callG d (.mutate op)).1 = (step d op).1 := by simp only [callG, stepG_eq d hf op]
+      · have hst : (callG d (.mutate op)).1 = (step d op).1 := by simp only [callG, stepG_eq d op]
         rw [hst] at e
         exact ih (inv_step hI op hapi.1) hapi.2 r e
     | q q =>
